@@ -478,6 +478,12 @@ class Calls:
 
     def _apply_contract(self, con, f: VFunc, self_sv, args, kwargs, st, node, vararg=None):
         th = self.th
+        base_sig = self.sidecar.signatures.get(con.key)
+        if base_sig is not None and not self.spec_mode:
+            extra = [k_ for k_ in kwargs if k_ not in base_sig]
+            if extra:
+                # the call passes a parameter the callee's contract was not written for
+                st.add(z3.Bool(f'needs_contract!{con.key} (called with new parameter {", ".join(extra)})'))
         env = self.bind_params(f.node, args, kwargs, st, self_sv=self_sv, module=f.module)
         if vararg is not None:
             env[f.node.args.vararg.arg] = vararg
